@@ -20,10 +20,13 @@
    (share in tokens) atomic units per reward update (rewards_upper_history_partial, rewards_shown_upper_partial).
    The EXACT "never exceed" is false of the faithful model (finding F7, commission rounded down): kept visible
    and refuted below, with its one-atomic-unit version proved for every scenario of the witness's shape.
-   NOT proved: the LOWER bound over histories (less than one token per withdrawal plus one short of the ideal,
-   up to a few atomic units per update) — it is evaluated on the implementation by the oracle of Chk14.v
-   (clause 35; clause 34 is the exact upper bound), where it fails only in the class DriftZeroTotal. *)
-From Verif Require Import Base OMap Bank Dec Staking StakingInv Chk14 StakingHist Chk16 Chk15 Chk14M Chk16M Chk15H.
+   The LOWER bound over histories is proved too, per PERIOD of positive displayed delegation, with a second ghost
+   ledger (rewards_lower_history_partial, rewards_shown_lower_partial, rewards_lower_history_nodrift): shortfall
+   < (W + 1) tokens + a fixed number of atomic units per reward update, OUTSIDE the class DriftZeroTotal (a reward
+   update, or the query, finds the validator's total at zero under a positive share), where it is refuted
+   (rewards_lower_unguarded_refuted).  The oracle's clauses 30-33 and 35 are shown to accept the model's own run
+   up to that class (C15_model_ok, C15_model_ok_with_lower); clause 34 (the exact upper bound) is refuted by F7. *)
+From Verif Require Import Base OMap Bank Dec Staking StakingInv Chk14 StakingHist Chk16 Chk15 Chk14M Chk16M Chk15H Chk15L Chk15M.
 Local Open Scope N_scope.
 
 (* a successful withdrawal pays exactly the pending reward shown immediately before, to the current
@@ -145,6 +148,53 @@ Theorem rewards_shown_upper_partial su w L d v r : comm_ok su -> winv su w -> le
 Proof. exact (shown_upper_lemma su w L d v r). Qed.
 Print Assumptions rewards_shown_upper_partial.
 
+(* ALL HISTORIES — the LOWER bound.  A second ghost ledger (Chk15L.lstepP) runs over the current PERIOD of every
+   pair: the period ends (all counters reset) when nothing is displayed after an operation, or when the operation
+   redelegates the whole displayed delegation away (the entry and its credited rewards are deleted on the way,
+   also when the destination is the same validator).  Within the period: I = ideal numerator (share * apr * whole
+   seconds * (1 - commission), summed over the reward updates), N = reward updates that moved the validator's
+   clock, S = sum of kslack over them (kslack = 10^18, i.e. one atomic unit, while the share is within the
+   validator's total, else the share), paid / W = tokens withdrawn / withdrawals, bad = updates that found the
+   validator's total at ZERO while the pair held a share (class DriftZeroTotal), dr = updates with share > total.
+   ledgerP_ok: for every pair with bad = 0
+        ideal  <=  withdrawn + credited + W tokens + N atomic units + S * 10^-18 atomic units
+   (a withdrawal floors the payout: < 1 token lost each; a reward update floors three times).  Proved for every
+   instrumented history from genesis, every scenario with commissions <= 1. *)
+Theorem rewards_lower_history_partial su w0 w L : comm_ok su -> init_world su = SOk w0 ->
+  preach su w0 ledgerP0 w L -> ledgerP_ok su w L.
+Proof. exact (rewards_lower_history_lemma su w0 w L). Qed.
+Print Assumptions rewards_lower_history_partial.
+
+(* ... with the pending reward SHOWN (the running interval included, its floor at the display: < 1 token):
+   ideal of the period  -  (withdrawn + shown)  <  (W + 1) tokens + (N + 1) atomic units + (S + kslack) * 10^-18
+   atomic units, whenever no reward update of the period — and not the query now — met the class DriftZeroTotal *)
+Theorem rewards_shown_lower_partial su w L d v r : comm_ok su -> winv su w -> ledgerP_ok su w L ->
+  P_bad (L d v) = 0 -> zts (w_st w) d v = false ->
+  q_rewards (params_of su) (w_now w) (w_st w) d v = SOk (Some r) ->
+  P_I (L d v) + stake_of (w_st w) d v * su_apr su * (w_now w / NS - lastns (w_st w) v / NS) * kfac su v
+  < (P_paid (L d v) + r + P_W (L d v) + 1) * D18 * YD * D18
+    + (P_N (L d v) + 1) * YD * D18 + (P_S (L d v) + kslack (w_st w) d v) * YD.
+Proof. exact (shown_lower_lemma su w L d v r). Qed.
+Print Assumptions rewards_shown_lower_partial.
+
+(* the drift-free reading (the share never above the validator's total at the reward updates of the period,
+   nor now — implied by "validator total = sum of the shares"): the property's bound with a FIXED allowance,
+   shortfall < (W + 1) tokens + 2 atomic units per reward update + 2 atomic units *)
+Theorem rewards_lower_history_nodrift su w0 w L d v r : comm_ok su -> init_world su = SOk w0 ->
+  preach su w0 ledgerP0 w L ->
+  P_dr (L d v) = 0 -> stake_of (w_st w) d v <= vstake (w_st w) v * D18 ->
+  q_rewards (params_of su) (w_now w) (w_st w) d v = SOk (Some r) ->
+  P_I (L d v) + stake_of (w_st w) d v * su_apr su * (w_now w / NS - lastns (w_st w) v / NS) * kfac su v
+  < (P_paid (L d v) + r + P_W (L d v) + 1) * D18 * YD * D18 + (2 * P_N (L d v) + 2) * YD * D18.
+Proof. exact (shown_lower_nodrift_lemma su w0 w L d v r). Qed.
+Print Assumptions rewards_lower_history_nodrift.
+
+(* without the guard the bound is FALSE of the faithful model (class DriftZeroTotal, a consequence of F9's drift):
+   a validator total of 0 under a share of 2 tokens earns nothing in ten years, 1.8 tokens short *)
+Theorem rewards_lower_unguarded_refuted : ~ rewards_lower_unguarded.
+Proof. exact rewards_lower_unguarded_refuted_lemma. Qed.
+Print Assumptions rewards_lower_unguarded_refuted.
+
 (* the oracle clauses "shown = paid to the current withdraw address" (30), "reset" (31), "mints only
    that, moves nothing else" (32), "every other pair's pending reward identical" (33), together with
    no-panic (1), failed-calls-change-nothing (2) and genesis (0), accept the model's own run for ALL
@@ -156,6 +206,20 @@ Theorem C15_model_ok su ops w0 m0 :
   filter (in_set C15m) (oracle su ops m0 (map fst (model_run su w0 m0 ops))) = [].
 Proof. exact (model_ok_15_lemma su ops w0 m0). Qed.
 Print Assumptions C15_model_ok.
+
+(* ... extended to the LOWER-BOUND clause 35 of the oracle (evaluated from the observations alone: displayed
+   stakes, whole seconds of the block advances, payments seen, one reset per period): on the model's own run,
+   for ALL scenarios with commissions <= 1 and ALL histories within the arithmetic bounds, the clauses 0, 1, 2,
+   30-33 never fail and clause 35 fails ONLY for a pair that met the class DriftZeroTotal (validator total zero
+   under a positive share) in some reachable world — the class predicate the check evaluates.  The oracle's
+   per-pair ledger is simulated by the ghost period ledger of rewards_lower_history_partial. *)
+Theorem C15_model_ok_with_lower su ops w0 m0 :
+  comm_ok su -> setup_ok su -> NoDup (acct_ids su) -> Forall (scoped su) ops ->
+  init_world su = SOk w0 -> model_snap su w0 = SOk m0 -> clean (model_run su w0 m0 ops) ->
+  Forall (fun kf : N * fail => fst (fst (snd kf)) = 35 /\ known35 su w0 (snd kf))
+         (filter (in_set C15m35) (oracle su ops m0 (map fst (model_run su w0 m0 ops)))).
+Proof. exact (model_ok_15_35_lemma su ops w0 m0). Qed.
+Print Assumptions C15_model_ok_with_lower.
 
 (* ---------- non-vacuity ---------- *)
 
@@ -240,4 +304,42 @@ Proof.
     assert (N : match ex15_led with Some _ => true | None => false end = true) by (vm_compute; reflexivity).
     destruct ex15_led as [[w L]|]; [reflexivity|discriminate N].
   - repeat split; vm_compute; reflexivity.
+Qed.
+
+(* the period ledger along a history with a fractional slash (drift-free: the share stays within the total), two
+   paying withdrawals of pair (2,1) and a partial undelegation: the premises of the lower-bound theorems hold
+   and the counters are not trivial; the DriftZeroTotal witness (Chk15L.dz_facts) meets bad = 0 but not the guard now *)
+Definition ex15_ops4 : list op :=
+  ex15_ops ++ [Withdraw 2 1; Slash 1 250000000000000000; Advance 15768000000000000; Undelegate 2 1 100 true;
+               Advance 1000000000; Withdraw 2 1; Advance 31536000000000000].
+Definition ex15_pled : option (world * ledgerP) := prun_all ex15_su ex15_w0 ledgerP0 ex15_ops4.
+Definition ex15_pw : world := match ex15_pled with Some (w, _) => w | None => ex15_w0 end.
+Definition ex15_P : ledgerP := match ex15_pled with Some (_, L) => L | None => ledgerP0 end.
+Example ex15_period_ledger :
+  preach ex15_su ex15_w0 ledgerP0 ex15_pw ex15_P /\
+  P_bad (ex15_P 2 1) = 0 /\ P_dr (ex15_P 2 1) = 0 /\ zts (w_st ex15_pw) 2 1 = false /\
+  stake_of (w_st ex15_pw) 2 1 = 125 * D18 /\ vstake (w_st ex15_pw) 1 = 650 /\
+  P_N (ex15_P 2 1) = 3 /\ P_S (ex15_P 2 1) = 3 * D18 /\ P_W (ex15_P 2 1) = 2 /\ P_paid (ex15_P 2 1) = 23 /\
+  q_rewards (params_of ex15_su) (w_now ex15_pw) (w_st ex15_pw) 2 1 = SOk (Some 11) /\
+  P_bad (dz_L 1 1) = 0 /\ zts (w_st dz_w) 1 1 = true.
+Proof.
+  split.
+  - pose proof (prun_all_preach' ex15_su ex15_ops4 ex15_w0 ledgerP0 ex15_pled eq_refl) as P.
+    assert (N : match ex15_pled with Some _ => true | None => false end = true) by (vm_compute; reflexivity).
+    unfold ex15_pw, ex15_P. destruct ex15_pled as [[w L]|]; [exact P|discriminate N].
+  - repeat (split; [vm_compute; reflexivity|]). vm_compute. reflexivity.
+Qed.
+
+(* C15_model_ok_with_lower: its hypotheses hold for the example run (ex15_model_ok_hyps + comm_ok), where no clause
+   of C15m35 fails; and on the DriftZeroTotal history the model's own run fails clause 35 for pair (1,1) — in the class *)
+Definition dz_m0 : snap := Eval vm_compute in match model_snap dz_su dz_w0 with SOk m => m | _ => mkSnap [] [] [] [] 0 0 end.
+Definition dz_run : list (oc * snap * world) := Eval vm_compute in model_run dz_su dz_w0 dz_m0 dz_ops.
+Example ex15_lower_clause :
+  comm_ok ex15_su /\
+  filter (in_set C15m35) (oracle ex15_su ex15_ops2 ex15_m0 (map fst ex15_run2)) = [] /\
+  model_run dz_su dz_w0 dz_m0 dz_ops = dz_run /\ cleanb dz_run = true /\
+  filter (in_set C15m35) (oracle dz_su dz_ops dz_m0 (map fst dz_run)) = [(10, (35, 1, 1))] /\
+  zero_total_with_share dz_w 1 1 = true.
+Proof.
+  split; [apply comm_okb_ok; vm_compute; reflexivity|]. repeat split; vm_compute; reflexivity.
 Qed.
